@@ -247,6 +247,8 @@ func checkC08(e *RunEnv) *CheckResult {
 				if _, ok := a.W["u"]; !ok {
 					steps = append(steps, Write("u", "untracked\n"))
 				}
+				// a staged change: the staging area differs from every commit
+				steps = append(steps, Run("add", "a"))
 			}
 			return steps
 		},
